@@ -186,6 +186,8 @@ class Alg:
             r = ("field", self.canon(t[1]), t[2])
         elif k == "rand":
             r = ("rand", t[1], t[2], tuple(self.canon(x) for x in t[3]))
+        elif k == "loopout":
+            r = self.loopout(t[1], t[2])
         else:
             r = tuple(self.canon(x) if isinstance(x, tuple) else x for x in t)
         self.cmemo[t] = r
@@ -339,6 +341,90 @@ class Alg:
             acc = acc.add(Poly({mono_mul(outer, ((atom, 1),)): c}))
         return acc
 
+    # ------------------------------------------------------------ loop recurrences
+    def loop_sub(self, info):
+        """Substitution of the per-iteration symbols of an iterator-driven loop by canonical ones."""
+        from .models import leaves_of
+        uid = info.uid
+        sub = {("idx", uid): ("I",)}
+        if info.src is not None:
+            for j, lf in enumerate(leaves_of(info.src)):
+                sub[("elem", uid, j)] = self.leaf_elem(self.leaf(lf))
+        return sub
+
+    def loopout(self, uid, c):
+        """Closed form of a loop-carried cell after an iterator-driven loop.
+        Recognised recurrences:  acc' = acc + w * g(elem),  w' = w * k   (k loop-invariant)
+        =>  acc_final = acc0 + sum_j w0 k^j g(elem_j)  =  acc0 + ('wsum', w0, k, V(g), n)."""
+        info = self.eng.loops.get(uid)
+        if info is None or info.kind != "iter" or c not in info.step:
+            return ("loopout", uid, c)
+        from .models import shape_len
+        n = shape_len(self.eng, info.src)
+        sub = self.loop_sub(info)
+        lv_self = ("lv", uid, c)
+        step = self.eng.subst(info.step[c], sub)
+        P = self.poly(step)
+        lvs = [a for a in P.atoms() if a[0] == "lv" and a[1] == uid]
+        others = [a for a in lvs if a != lv_self]
+        lin = P.get(((lv_self, 1),), 0)
+        if lin == 1 and len(others) == 1:
+            w = others[0]
+            rest = P.add(Poly.atom(lv_self), -1)
+            # rest must be w * G with G free of loop variables
+            G = Poly()
+            ok = True
+            for m, co in rest.items():
+                d = dict(m)
+                if d.get(w, 0) != 1 or any(a[0] == "lv" for a in d if a != w):
+                    ok = False
+                    break
+                d.pop(w)
+                G[tuple(sorted(d.items(), key=lambda kv: key(kv[0])))] = co
+            wstep = info.step.get(w[2])
+            if ok and wstep is not None:
+                WP = self.poly(self.eng.subst(wstep, sub))
+                # w' = w * k
+                K = Poly()
+                okw = True
+                for m, co in WP.items():
+                    d = dict(m)
+                    if d.get(w, 0) != 1 or any(self.has_EI(a) or a[0] == "lv" for a in d if a != w):
+                        okw = False
+                        break
+                    d.pop(w)
+                    K[tuple(sorted(d.items(), key=lambda kv: key(kv[0])))] = co
+                if okw:
+                    atom = ("wsum", self.poly_term(self.poly(info.init[w[2]])), self.poly_term(K),
+                            ("V", self.poly_term(G), n))
+                    return self.poly_term(self.poly(info.init[c]).add(Poly.atom(atom)))
+        if lin == 1 and not others:
+            # acc' = acc + g(elem): plain sum
+            rest = P.add(Poly.atom(lv_self), -1)
+            acc = self.poly(info.init[c])
+            for m, co in rest.items():
+                inner = tuple((a, p) for a, p in m if self.has_EI(a))
+                outer = tuple((a, p) for a, p in m if not self.has_EI(a))
+                acc = acc.add(Poly({mono_mul(outer, ((("vs", inner, n), 1),)): co}))
+            return self.poly_term(acc)
+        # generic canonical description (positional loop variables over the dependency closure)
+        order = [c]
+        seen = {c}
+        i = 0
+        steps = {}
+        while i < len(order):
+            x = order[i]
+            i += 1
+            st = self.eng.subst(info.step.get(x, ("lv", uid, x)), sub)
+            steps[x] = st
+            for a in atoms_lv(st, uid):
+                if a not in seen and a in info.step:
+                    seen.add(a)
+                    order.append(a)
+        ren = {("lv", uid, x): ("LV", k) for k, x in enumerate(order)}
+        desc = tuple((self.canon(info.init[x]), self.canon(self.eng.subst(steps[x], ren))) for x in order)
+        return ("fold", tuple(self.leaf(l) for l in (__import__("zkverif.models", fromlist=["x"]).leaves_of(info.src) if info.src else ())), desc, n)
+
     # ------------------------------------------------------------ booleans
     def nb(self, node):
         """Engine BDD node -> BDD node in this manager over normalised atoms."""
@@ -470,3 +556,18 @@ class Alg:
 
     def fmt_atom(self, a, F=None):
         return str(a)
+
+
+def atoms_lv(t, uid, acc=None):
+    if acc is None:
+        acc = []
+    if isinstance(t, tuple) and t:
+        if t[0] == "lv" and t[1] == uid:
+            if t[2] not in acc:
+                acc.append(t[2])
+        elif t[0] == "b":
+            pass
+        else:
+            for x in t:
+                atoms_lv(x, uid, acc)
+    return acc
